@@ -440,6 +440,46 @@ SNIPPETS = ['# c\n', '#', '\r\n', '\r', '//x\n', '//', '/*x*/', '/*', '*/', '(*x
             'INPUT', 'input', 'OUTPUT(', 'module', 'endmodule', 'wire', 'assign', ' = ', '()', '{', '}', ';', ',,', 'tri t;']
 
 
+TEXT_PROBES = {
+    'bench': ['', ' ', '#', '# x', '\n\n', '\r\n', '\r', 'INPUT(a)\r', 'INPUT(a)#c\r\nOUTPUT(b)', 'INPUT ( a , b )', 'INPUT(a,)', 'INPUT(,a)',
+              'INPUT()', 'input()OUTPUT()output()', 'INPUT = AND(a)', 'Input(a)', 'INPUTX(a)', 'x = INPUT(INPUT, OUTPUT)',
+              'z=AND(a,b)z2=OR(a,b)', 'z = AND(a b)', 'z = (a)', 'z = AND', 'z = AND(a', 'z == AND(a)', 'a-b = -(_)', 'K = ſ(İ, ı)',
+              'é = AND(a)', 'z = AND(a)\x0b', 'z = AND(a)\x0c', 'z\t=\tAND(a)', 'z = AND(a) # c\ny = OR(a)', 'INPUT(a) OUTPUT(INPUT)',
+              'OUTPUT', '7 = 8(9)', 'INPUT(a)) ', 'z = AND(a);', 'z = AND(a.b)', 'INPUT(a)\r\r\nOUTPUT(b)', 'INPUT(a) #\rOUTPUT(b)\nOUTPUT(c)',
+              'output(z)\nz = DFF(z)', 'INPUT(a)\n\nOUTPUT(a)\n'],
+    'verilog': ['', '  ', '// c\n', '// c', '/* c */', '/* c', '(* a *)', '(* a', 'module', 'module m', 'module m;', 'module m(); endmodule',
+                'modulem();endmodule', "module1'b0();endmodule", 'module 1x(); endmodule', 'module1x(); endmodule', 'module m() ; endmodule endmodule',
+                'module m(); endmodule module', 'module m(); endmodulemodule n(); endmodule', 'module m(a,); endmodule',
+                'module m(a b); endmodule', 'module module(module); input module; endmodule', 'module m(); wire input; endmodule',
+                'module m(); wire wire; endmodule', 'module m(); input; endmodule',
+                'module m(); input [3:0] a, b; output [0] c; inout [ 7 : 0 ] d; tri t; endmodule', 'module m(); wire [3:0 a; endmodule',
+                'module m(); wire [3:0] [1:0] a; endmodule', 'module m(); wire [a] b; endmodule', "module m(); wire [1'b0] b; endmodule",
+                'module m(); assign a = b; endmodule', "module m(); assign a[1] = {b, c[3:2], {d}, 2'b01}; endmodule",
+                'module m(); assign {} = a; endmodule', "module m(); assign a = 4'hfg; endmodule", "module m(); assign a = 4'b; endmodule",
+                "module m(); assign a = 4 'b0; endmodule", 'module m(); assign a = 12; endmodule', 'module m(); X u(); endmodule',
+                'module m(); X u(a); endmodule', 'module m(); X u(.A); endmodule', 'module m(); X u(.A()); endmodule',
+                'module m(); X u(.A(a),); endmodule', 'module m(); X u(.A(a) .B(b)); endmodule', 'module m(); X u(.A(a), b, {c,d}); endmodule',
+                'module m(); X \\u (.A(a)); endmodule', 'module m(); X \\u(.A(a)); endmodule', 'module m(); X \\u\t(.A(a)); endmodule',
+                'module m(); X \\u\r\n(.A(a)); endmodule', 'module m(); X \\u\r(.A(a)); endmodule', 'module m(); \\input u(.A(a)); endmodule',
+                'module m(); input u(.A(a)); endmodule', 'module m(); assign u(.A(a)); endmodule', 'module m(); X assign(.A(a)); endmodule',
+                'module m(); X u(.input(a)); endmodule', 'module m(); X u(.A(a))(* k *); endmodule', 'module m(); X u(.A(*)); endmodule',
+                'module m(); X u(.A(* *)); endmodule', 'module m(); X u ( . A ( a [ 1 : 0 ] ) ) ; endmodule', 'module m(); X u(.A(a));; endmodule',
+                'module m(); ; endmodule', 'module m(); X u(.A(a)) endmodule', 'module m(); wire a\r; endmodule', 'module m(); wire a;\r\nendmodule',
+                'module m(); wire a; // c\r\nendmodule', 'module m(); wire a; // c\rendmodule', 'module m(); wire a; /* * / */ endmodule',
+                'module m(); wire a; /*/ endmodule', 'module m(); wire a; /**/ endmodule', 'module m(); wire a; /***/ endmodule',
+                'module m(); wire a; (*) endmodule', 'module m(); wire a; (**) endmodule', 'module m(); wire a; (* ) *) endmodule',
+                'module m(); wire a / b; endmodule', 'module m(); wire K, ſ1, _x; endmodule', 'module m(); wire x$; endmodule',
+                'module m(); wire \\é ; endmodule', 'module m(); wire é; endmodule', 'module m(); wire a;\x0cendmodule',
+                'module m(); wire a;\x0bendmodule', "module m(); 4'b0 4'b1 (.4'b1(4'b1)); endmodule", "module m(); X u(.A(\\4'b01 )); endmodule",
+                "module m(); X u(.A(\\a'b )); endmodule", 'module m(); wire [007:00] a; endmodule',
+                'module m(); wire a, b, c ; X \\y (.A(a)) ; endmodule\n', 'MODULE m(); endmodule', 'module m(); ENDMODULE', 'module m(); Wire a; endmodule',
+                'module m(a, z); input a; output z; INV_X1 u(.A(a), .ZN(z)); endmodule // end', 'module m(a, z); input a; output z; INV_X1 u(.A(a), .ZN(z)); endmodule // end\n',
+                "module m(z); output [3:0] z; assign z = 4'HA; endmodule", "module m(z); output [3:0] z; assign z = 04'd10; endmodule",
+                'module m(a, z); input a; output z; INV_X1\\u (.A(a), .ZN(z)); endmodule', "module m(a, z); input a; output z; INV_X1 u(.A(a), .ZN(z));endmodule(* x *)",
+                'module m(a, z); input [1:0] a; output z; AND2_X1 u(.A1(a[1]), .A2(a[0]), .ZN(z)); endmodule',
+                'module m(a, z); input a; output z; INV_X1 u(.A(a), .ZN(z), .A()); endmodule']}
+
+
 def mutate_text(rng, text):
     """one small edit of a text: (text', label)"""
     op = rng.choice(['delete', 'delete', 'insert', 'insert', 'replace', 'swap', 'snippet', 'cut', 'dup', 'truncate', 'join-lines'])
@@ -875,6 +915,10 @@ def run(ck):
     cells.LIBS.setdefault('BENCH', bench_lib())
     for case in corpus_cases():
         run_netlist(ck, case['nl'], [case], notes)
+    for fmt, texts in TEXT_PROBES.items():       # fixed lexer / grammar corner cases: model vs lark vs the real parser
+        for t in texts:
+            st = text_check(ck, fmt, t, 'NANGATE', False, 'probe')
+            ck.hist[f'text:{fmt}:probe:{st}'] += 1
     n = 45 * ck.scale
     stream(ck, n, notes)
     odd_stream(ck, n, notes)
